@@ -136,18 +136,20 @@ CLAIMED = {
        'sequences and segmentations, against the real Client/LmtpClient.',
   ref='6/C10', technique='Lean 4 proof (FIFO/alignment invariant over method sequences, uses the C17 theorem) + differential correspondence vs real smtp.Client/LmtpClient'),
  'C11': dict(
-  text='PARTIAL (the MX resolver and connection reuse are exercised by the correspondence campaign only; timeouts are scripted as an outcome). '
+  text='PARTIAL (DNS caching / TTLs and connection reuse are exercised by the correspondence campaign only; timeouts are scripted as an outcome). '
        'Lean theorems over Model/Relay.lean (SmtpRelayClient._run/_handshake/_deliver/_check_replies/_fail, LmtpRelayClient, '
        'SmtpRelayError.factory, PipeRelay and HttpRelay result classification), for every downstream script: a recipient is reported delivered '
        'only if the connection was made, the handshake completed and the script gave well-formed non-error replies to MAIL, to that RCPT, to DATA '
        'and to the message data (LMTP: to the end-of-data reply that belongs to that recipient, the k-th for k accepted recipients before it); '
        'a whole-message failure keeps each refused recipient\'s own class and never yields a success; handshake/read failures are failure '
        'classes; pipe: success only on exit status 0 (per recipient / first process); HTTP: success only on a 2xx status, refused/timeout are '
-       'transient. Tied to the code by running the real SmtpRelayClient/LmtpRelayClient/StaticSmtpRelay/MxSmtpRelay against a scripted peer on a socketpair '
+       'transient; MX relay (Model/Mx.lean): the host list is the resolver\'s answer sorted by priority (a permutation of it), attempt n goes to '
+       'record n mod k so the first attempt uses a best-priority host and every host gets its turn, neither MX nor A records / an empty answer / a '
+       'recipient without a domain is a permanent failure, a resolver error (also on the A fallback) a transient one. Tied to the code by running the real SmtpRelayClient/LmtpRelayClient/StaticSmtpRelay/MxSmtpRelay against a scripted peer on a socketpair '
        '(stage x outcome x pipelining x TLS x AUTH x 1..3 recipients), PipeRelay/MaildropRelay/DovecotLdaRelay against stub programs, HttpRelay '
-       'against a loopback HTTP peer and MxSmtpRelay with a stub resolver.',
+       'against a loopback HTTP peer and MxSmtpRelay with a stub resolver over every pair of MX / A answers x attempt numbers and seeded MX lists with ties.',
   ref='6/C11', technique='Lean 4 proof (case analysis of the attempt function over downstream scripts, induction on the LMTP merge) + differential correspondence vs real relay clients on scripted peers',
-  note='Partial: resolver, connection reuse and real timeouts are covered by the correspondence campaign, not by theorems.'),
+  note='Partial: DNS caching, connection reuse and real timeouts are covered by the correspondence campaign, not by theorems.'),
  'C19': dict(
   text='PARTIAL (liveness is a termination theorem over the pool\'s own steps: idle timers and connection faults between messages are environment events and must be finitely many; '
        'RSET-after-failure and one-message-at-a-time on a reused connection are monitored on the implementation, not proved). Lean theorems over '
